@@ -83,7 +83,14 @@ fn make_trains(rng: &mut Rng, shape: &[usize], slots: usize) -> Option<Vec<Train
     }
     for (i, nf) in shape.iter().enumerate() {
         // ids distinct modulo the slot count (with one slot per id, the extreme ids are used)
-        let id = if slots >= 256 { [0u8, 255, 254, 1, 128][i % 5] } else { (i + slots * rng.below(256 / slots)) as u8 };
+        let id = if slots >= 256 {
+            [0u8, 255, 254, 1, 128][i % 5]
+        } else if slots == 255 {
+            // 255 slots: ids 0..=254 are distinct slots, id 255 shares slot 0 (used as the aliasing stray)
+            [0u8, 254, 1, 127, 128][i % 5]
+        } else {
+            (i + slots * rng.below(256 / slots)) as u8
+        };
         let plen = *nf * 6 + rng.below(12);
         let pdu = rng.bytes(plen);
         let label = gen_label(rng, [0usize, 2, 4, 3][i % 4]);
@@ -130,7 +137,7 @@ impl Property for Prop {
         "C07"
     }
     fn rule(&self) -> &'static str {
-        "merges: for each shape (fragments per PDU: 2x2, 2x3, 3x3, 2x4, 2x5, 3x4, 4x4, 5x5, 3x3x3, 2x3x4, 2x2x2x2, 2x2x3; thorough adds 4x4x4, 3x3x3x3, 5x5x2x2, 4x5x5, 2x2x2x3) trains are built by the real encapsulator on fragment ids distinct modulo the slot count (each shape on memories of 4, 3, 6 and 5 slots) and EVERY order-preserving merge is decapsulated on a fresh receiver (key = shape x memory size x 8 parts of the merge index space); the result stream restricted to each train must equal that train decapsulated alone, with exactly one delivery per PDU at its own end fragment. strays: for every merge of the small shapes one stray packet is inserted at EVERY position from {intermediate / end of an unknown id in an empty slot, intermediate / end of an id aliasing an open slot (id +/- slots), complete packet (accepted), complete packet with no storage left (rejected), end fragment with a bad CRC for a finished id}. restart: a new first fragment on the same id restarts only that id. sampled: random merges of 4x5 with an aliasing stray on memories of 4..7 and 256 slots (ids 0, 255, 254, 1 there). reuse-strays: all merges of 2x2, 2x3, 3x3, 2x2x2 where every PDU carries the same label and the re-use-enabled encapsulator is driven in the merge order (substituted first fragments), with a stray intermediate / end packet of an unknown or aliasing id at every position; reference = the same stream without the stray. Evaluations = decap calls; non-trivial = a merge in which at least two trains were really interleaved; fingerprint = hash(shape, merge order, stray)."
+        "merges: for each shape (fragments per PDU: 2x2, 2x3, 3x3, 2x4, 2x5, 3x4, 4x4, 5x5, 3x3x3, 2x3x4, 2x2x2x2, 2x2x3; thorough adds 4x4x4, 3x3x3x3, 5x5x2x2, 4x5x5, 2x2x2x3) trains are built by the real encapsulator on fragment ids distinct modulo the slot count (each shape on memories of 4, 3, 6 and 5 slots) and EVERY order-preserving merge is decapsulated on a fresh receiver (key = shape x memory size x 8 parts of the merge index space); the result stream restricted to each train must equal that train decapsulated alone, with exactly one delivery per PDU at its own end fragment. strays: for every merge of the small shapes one stray packet is inserted at EVERY position from {intermediate / end of an unknown id in an empty slot, intermediate / end of an id aliasing an open slot (id +/- slots), complete packet (accepted), complete packet with no storage left (rejected), end fragment with a bad CRC for a finished id}. restart: a new first fragment on the same id restarts only that id. sampled: random merges of 4x5 with an aliasing stray on memories of 4..7 and 256 slots (ids 0, 255, 254, 1 there). reuse-strays: all merges of 2x2, 2x3, 3x3, 2x2x2 where every PDU carries the same label and the re-use-enabled encapsulator is driven in the merge order (substituted first fragments), with a stray intermediate / end packet of an unknown or aliasing id at every position; reference = the same stream without the stray; additionally an extra PDU whose damaged end fragment (length mismatch) is rejected at every position. scarce: 4 trains of 3 fragments with only 1..3 storage buffers: every PDU whose first fragment was accepted is delivered exactly once. (All receivers are built with max_pdu_frag = length of the longest train.) Evaluations = decap calls; non-trivial = a merge in which at least two trains were really interleaved; fingerprint = hash(shape, merge order, stray)."
     }
     fn gens(&self, cx: &Cx) -> Vec<Gen> {
         let s = shapes(cx).len() as u64;
@@ -140,6 +147,7 @@ impl Property for Prop {
             Gen { name: "restart", count: cx.n(2_000, 100_000), exhaustive: false },
             Gen { name: "sampled", count: cx.n(10_000, 1_000_000), exhaustive: false },
             Gen { name: "reuse-strays", count: 4 * 2 * PARTS, exhaustive: true },
+            Gen { name: "scarce", count: cx.n(3_000, 300_000), exhaustive: false },
         ]
     }
     fn run_key(&self, cx: &Cx, gen: &str, key: u64, rep: &mut Report) {
@@ -149,7 +157,7 @@ impl Property for Prop {
         // key layout for merges / strays: ((shape * SLOTV) + slot variant) * PARTS + part
         let slots = match gen {
             "merges" | "strays" => SLOT_VARIANTS[((key / PARTS) % SLOTV) as usize],
-            "sampled" => [4usize, 5, 6, 7, 256][(key % 5) as usize],
+            "sampled" | "scarce" => [4usize, 5, 6, 7, 256, 255][(key % 6) as usize],
             _ => [4usize, 3, 6, 5, 2, 8][(key % 6) as usize],
         };
         let table = MandTable::none();
@@ -159,7 +167,10 @@ impl Property for Prop {
             t.pkts.iter().map(|p| outcome(&dec_guard(&mut d, p))).collect()
         };
         let run_merge = |trains: &[TrainT], refs: &[Vec<String>], order: &[usize], stray: Option<(usize, &Vec<u8>, &str)>, rep: &mut Report| -> bool {
-            let mut d = plain_dec(slots, 64, (slots + 2).min(10), 64, table.clone());
+            // the constructor's max_pdu_frag argument is set to the length of the longest train: rejected stray
+            // packets must not count against a PDU in progress
+            let maxfrag = trains.iter().map(|t| t.pkts.len()).max().unwrap_or(0);
+            let mut d = plain_dec_ex(slots, 64, (slots + 2).min(10), 64, table.clone(), 0, maxfrag);
             let mut next = vec![0usize; trains.len()];
             let mut delivered = vec![0usize; trains.len()];
             let mut pos = 0usize;
@@ -410,9 +421,145 @@ impl Property for Prop {
                             }
                         }
                     }
+                    // an extra PDU X (same label, its own slot) whose first fragment opens the stream and whose END
+                    // arrives damaged (payload cut short: length mismatch) at every later position: X is lost, every
+                    // other PDU must be unaffected (reference = the stream with X's first fragment only)
+                    if let Some(xid) = empty_slot_id {
+                        let xpdu: Vec<u8> = (0..24u8).collect();
+                        let mut enc2 = Encapsulator::new(DefaultCrc {});
+                        let mut fb = vec![0u8; 7 + ll + 8];
+                        let xfirst = match crate::mon::guard(|| enc2.encap(&xpdu, xid, EncapMetadata::new(0x0900, label), &mut fb)) {
+                            Ok(Ok(st)) => {
+                                let (n, c) = status_parts(&st);
+                                fb.truncate(n);
+                                c.map(|c| (fb.clone(), c))
+                            }
+                            _ => None,
+                        };
+                        if let Some((xf, xc)) = xfirst {
+                            // the rest of the stream is produced by the SAME encapsulator state (label already sent)
+                            let mut eb = vec![0u8; 200];
+                            if let Ok(Ok(st)) = crate::mon::guard(|| enc2.encap_frag(&xpdu, &xc, &mut eb)) {
+                                let (n, _) = status_parts(&st);
+                                eb.truncate(n);
+                                // damage: drop 3 payload bytes and fix the GSE length
+                                let mut bad = eb.clone();
+                                bad.drain(3..6);
+                                let gl = bad.len() - 2;
+                                bad[0] = (bad[0] & 0xF0) | ((gl >> 8) as u8 & 0x0F);
+                                bad[1] = gl as u8;
+                                // stream2 = X first + the trains re-encapsulated after it would change substitution of the
+                                // first train's label; keep it simple: X's first fragment carries the label in full, the
+                                // original stream starts with a full label too, so prepend X and replay the same packets
+                                let run2 = |bad_at: Option<usize>, rep: &mut Report| -> Option<Vec<String>> {
+                                    let mut d = plain_dec(slots, 64, slots + 2, 64, MandTable::none());
+                                    let r0 = dec_guard(&mut d, &xf);
+                                    if !matches!(r0, Ok(Ok((DecapStatus::FragmentedPkt(_), _)))) {
+                                        return None;
+                                    }
+                                    let mut outs = Vec::new();
+                                    for (i, (_, p)) in stream.iter().enumerate() {
+                                        if bad_at == Some(i) {
+                                            rep.eval();
+                                            let rb = dec_guard(&mut d, &bad);
+                                            if rb.is_err() {
+                                                return None;
+                                            }
+                                        }
+                                        rep.eval();
+                                        let r = dec_guard(&mut d, p);
+                                        outs.push(outcome(&r));
+                                        if let Ok(Ok((DecapStatus::CompletedPkt(b, _), _))) = r {
+                                            let _ = d.provision_storage(b);
+                                        }
+                                    }
+                                    Some(outs)
+                                };
+                                if let Some(ref2) = run2(None, rep) {
+                                    if ref2.iter().filter(|o| o.starts_with("C(")).count() == shape.len() {
+                                        for at in 1..total {
+                                            match run2(Some(at), rep) {
+                                                Some(o) if o == ref2 => rep.count("c07.reuse.bad-end-runs"),
+                                                Some(o) => {
+                                                    let i = (0..o.len()).find(|&i| o[i] != ref2[i]).unwrap_or(0);
+                                                    rep.violation("C07", "rejected-end-of-another-pdu-changes-outcome:re-use-traffic".into(), || format!("shape {:?} ids {:?} label {} merge order {:?}: PDU X (id {}) loses bytes, its end fragment {} is rejected before packet {}; packet {} of the stream -> {} instead of {}", shape, ids, label_str(&label), order, xid, hex_short(&bad, 24), at, i, o[i], ref2[i]), &replay);
+                                                    return;
+                                                }
+                                                None => return,
+                                            }
+                                        }
+                                    }
+                                }
+                            }
+                        }
+                    }
                     rep.nontrivial(mix(mix(0x5E05E, key / PARTS), fnv(&order.iter().map(|x| *x as u8).collect::<Vec<_>>())));
                 };
                 merges(&mut counts, &mut cur, total, &mut idx, part, &mut f);
+            }
+            "scarce" => {
+                // more PDUs in flight than storage buffers: a PDU whose first fragment finds no storage is lost
+                // as a whole, but every PDU whose first fragment was accepted is still delivered exactly once
+                let mut rng = Rng::derive(cx.seed, fnv(gen.as_bytes()), key);
+                let shape = vec![3usize, 3, 3, 3];
+                let trains = match make_trains(&mut rng, &shape, slots) {
+                    Some(t) => t,
+                    None => return,
+                };
+                let nbuf = 1 + rng.below(3);
+                let mut d = plain_dec(slots, 64, nbuf, 64, MandTable::none());
+                let mut left = shape.clone();
+                let mut order = Vec::new();
+                while order.len() < 12 {
+                    let t = rng.below(4);
+                    if left[t] > 0 {
+                        left[t] -= 1;
+                        order.push(t);
+                    }
+                }
+                let mut next = vec![0usize; 4];
+                let mut started = vec![false; 4];
+                let mut delivered = vec![0usize; 4];
+                for &t in &order {
+                    let k = next[t];
+                    next[t] += 1;
+                    rep.eval();
+                    let r = dec_guard(&mut d, &trains[t].pkts[k]);
+                    match &r {
+                        Err(p) => {
+                            rep.violation("C07", "scarce-storage:panic".into(), || format!("receiver panicked: {}", p), &replay);
+                            return;
+                        }
+                        Ok(Ok((DecapStatus::FragmentedPkt(_), _))) => {
+                            if k == 0 {
+                                started[t] = true;
+                            }
+                        }
+                        Ok(Ok((DecapStatus::CompletedPkt(b, m), _))) => {
+                            delivered[t] += 1;
+                            if m.pdu_len() != trains[t].pdu.len() || b[..trains[t].pdu.len()] != trains[t].pdu[..] || m.label() != trains[t].label {
+                                rep.violation("C07", "scarce-storage:delivery-not-intact".into(), || format!("{} buffers, merge order {:?}: train {} delivered altered", nbuf, order, t), &replay);
+                                return;
+                            }
+                            // the application keeps the delivered buffer: storage stays scarce
+                        }
+                        _ => {}
+                    }
+                }
+                for t in 0..4 {
+                    if started[t] && delivered[t] != 1 {
+                        rep.violation("C07", "scarce-storage:started-train-not-delivered".into(), || format!("{} storage buffers on {} slots, ids {:?}, merge order {:?}: the first fragment of train {} was accepted but the PDU was delivered {} times (started {:?}, delivered {:?})", nbuf, slots, trains.iter().map(|t| t.id).collect::<Vec<_>>(), order, t, delivered[t], started, delivered), &replay);
+                        return;
+                    }
+                    if !started[t] && delivered[t] != 0 {
+                        rep.violation("C07", "scarce-storage:delivery-without-first".into(), || format!("train {} delivered although its first fragment was refused", t), &replay);
+                        return;
+                    }
+                }
+                rep.count("c07.scarce-ok");
+                if started.iter().filter(|x| **x).count() >= 2 {
+                    rep.nontrivial(mix(0x5CA2, key));
+                }
             }
             "restart" => {
                 let mut rng = Rng::derive(cx.seed, fnv(gen.as_bytes()), key);
@@ -499,7 +646,7 @@ impl Property for Prop {
         }
     }
     fn floors(&self, _cx: &Cx, rep: &mut Report) {
-        for k in ["c07.merges", "c07.interleaved", "c07.stray-runs", "c07.restarts", "c07.sampled-ok", "c07.reuse.stray-runs"] {
+        for k in ["c07.merges", "c07.interleaved", "c07.stray-runs", "c07.restarts", "c07.sampled-ok", "c07.reuse.stray-runs", "c07.scarce-ok", "c07.reuse.bad-end-runs"] {
             if rep.get(k) == 0 {
                 rep.floors_missing.push(format!("C07 floor: counter {} is 0", k));
             }
